@@ -11,12 +11,17 @@ import SqlgrepModel.Drivers.ParseExpr
 import SqlgrepModel.Drivers.Pipeline
 import SqlgrepModel.Drivers.JsonText
 import SqlgrepModel.Drivers.F64Parse
+import SqlgrepModel.Drivers.FactCheck
 /- Line protocol driver: `<kind> <payload…>` per line in, one answer line out. -/
 open Sqlgrep
 
 def dispatch (line : String) : String :=
   match Sexp.parseAll line with
   | some (.atom kind :: args) =>
+    -- shipped library facts are first compared with what the Lean model predicts (Drivers/FactCheck.lean)
+    match Drivers.FactCheck.check kind args with
+    | some mismatch => mismatch
+    | none =>
     match kind with
     | "cmp3" => Drivers.C16.handle args
     | "eval" => Drivers.Eval.handle args
